@@ -138,7 +138,7 @@ CLAIMS["C14"]["text"] += " Compiler front end: memory.size / memory.grow / memor
 
 CLAIMS["C01"]["text"] += (" Imported globals across calls: the same programs with a call to a function of the exporting instance that changes its global in between (nothing read before a call is reused after it). "
     "History independence: for every ordered pair of a six-member control-flow + memory family, the second function compiled AFTER the first by one shared front-end compiler and SSA builder (as the engine compiles the functions of a module) agrees with the interpreter.")
-CLAIMS["C02"]["text"] += " Machine level also: v128 lane loads/stores (8/16/32/64-bit lanes) and scalars fused from loads into lane inserts, for every memory size below 4 GiB."
+CLAIMS["C02"]["text"] += " Machine level also: v128.load / v128.store and the v128 lane loads/stores (8/16/32/64-bit lanes) and scalars fused from loads into lane inserts, for every memory size below 4 GiB."
 CLAIMS["C03"]["text"] += (" Reserved-index encodings: memory.size / memory.grow / memory.fill / memory.copy / memory.init with each reserved byte written canonically or as an over-long LEB128 zero: "
     "whatever the validator decides, an accepted module runs on the interpreter and through the compiler front end exactly as validated.")
 CLAIMS["C06"]["text"] += (" Start functions: Runtime.InstantiateModule of a module whose _start ends in an exit raised by a host function (panic only, or closing the caller first), for every exit code: "
